@@ -234,7 +234,7 @@ NOT_APPLICABLE = {}
 
 CLAIMS = {
     "C12": {
-        "text": "Histories: generated call histories followed by probe calls, compared with fresh-printer references; the pool hook proves that the probes really ran on recycled printers and yields the references a fresh process would give (cross-checked against a real freshly started subprocess). Schedules: sampled concurrent replays compared with sequential references, and the same replays under the race detector (happens-before analysis flags unsynchronised sharing on any executed path, regardless of timing). Exploration; found and repaired F6 (read-only accessors wrote into a shared buffer).",
+        "text": "Histories: generated call histories followed by probe calls, compared with fresh-printer references; the pool hook proves that the probes really ran on recycled printers and yields the references a fresh process would give (cross-checked against a real freshly started subprocess). Schedules: sampled concurrent replays compared with sequential references, and the same replays under the race detector (happens-before analysis flags unsynchronised sharing on any executed path, regardless of timing). Exploration; found and repaired F6 (read-only accessors wrote into a shared buffer) and F12 (Formatters saw the width and precision numbers of earlier directives and, through the pool, of earlier calls).",
         "design_ref": "DESIGN.md §4.12",
         "note": "The schedule half samples interleavings: Go gives the harness no control over the scheduler and the library has no yield points, so schedules are not enumerated (weaker than the history half, as DESIGN.md §7 says). A race report is schedule dependent and is reported with its stack traces as the replay file. Trusted: the pool hook (counter in ppFree.New).",
         "technique": "rapid stateful/history-based property testing with hook-verified pool reuse + concurrent differential testing under the Go race detector",
@@ -288,13 +288,13 @@ CLAIMS = {
         "technique": "exhaustive enumeration of the directive product with a round-trip oracle and a differential oracle (wrapper vs. direct call)",
     },
     "C02": {
-        "text": "Two-run (hyper-property) check: for generated shapes, two instantiations of the unsafe leaves must give byte-identical redacted outputs. This is the direct executable form of non-interference and is sensitive to every (kind, verb) classification site of the forked fmt (a missing unsafe switch shows as soon as the two instantiations differ in that leaf). Exploration; 100k pairs per quick run, 6.4M per thorough run.",
+        "text": "Two-run (hyper-property) check: for generated shapes, two instantiations of the unsafe leaves must give byte-identical redacted outputs. This is the direct executable form of non-interference and is sensitive to every (kind, verb) classification site of the forked fmt (a missing unsafe switch shows as soon as the two instantiations differ in that leaf). Exploration; 100k pairs per quick run, 6.4M per thorough run. Found and repaired F15 (a SafeMessager printed with a bad verb showed its fields as safe).",
         "design_ref": "DESIGN.md §4.2",
         "note": "Trusted: the derivation of instantiation B keeps exactly what the property calls shape (types, emptiness incl. integer zero-ness, line-break positions, element counts of byte slices, relative order of map keys). Values declared safe are shared and kept free of pointers (addresses of distinct objects differ).",
         "technique": "rapid property-based testing of a two-run relation (non-interference) with constructive generation of paired inputs",
     },
     "C04": {
-        "text": "Differential testing against the toolchain's own fmt on generated formats and fmt-compatible operand trees (including user methods that panic or use their fmt.State): stripped redact output must equal fmt's output with markers escaped, and panics must coincide. Exploration; 150k cases per quick run, 8M per thorough run.",
+        "text": "Differential testing against the toolchain's own fmt on generated formats and fmt-compatible operand trees (including user methods that panic or use their fmt.State): stripped redact output must equal fmt's output with markers escaped, and panics must coincide. Exploration; 300k cases per quick run, 16M per thorough run. Found and repaired F13 (map keys starting with a NaN printed in random order) and, with C12, F12.",
         "design_ref": "DESIGN.md §4.4",
         "note": "Oracle = fmt of go1.23.5. Known drift between that fmt and the forked (older) one is excluded: %w, '0' with '-', and width/precision after a caught method panic inside the same operand (newer fmt zeroes the numbers in clearflags).",
         "technique": "rapid property-based differential testing against the standard library fmt",
@@ -318,7 +318,7 @@ CLAIMS = {
         "technique": "model-based (stateful) property testing: bounded exhaustive BFS with state de-duplication + rapid-generated histories against a reference model, cross-implementation differential",
     },
     "C13": {
-        "text": "Metamorphic check over generated call histories: the same history with and without accessor calls must give the same final string, each accessor must leave the hidden state (hook) untouched, Len must equal the length of RedactableString at every step, after Reset/Take the object must be indistinguishable (outputs and hidden state) from a new one under a generated suffix, and every string obtained earlier must be byte-identical at the end. Enumerated at every reachable short-history state, sampled for long histories. Exploration.",
+        "text": "Metamorphic check over generated call histories: the same history with and without accessor calls must give the same final string, each accessor must leave the hidden state (hook) untouched, Len must equal the length of RedactableString at every step, after Reset/Take the object must be indistinguishable (outputs and hidden state) from a new one under a generated suffix, and every string or byte slice obtained earlier must be byte-identical at the end. Enumerated at every reachable short-history state, sampled for long histories. Exploration; found and repaired F14 (RedactableBytes() returned the live array).",
         "design_ref": "DESIGN.md §4.13",
         "note": "Trusted: the verif hook (VerifState/VerifClone/VerifRawBytes) reports the real fields. RedactableBytes() returns a slice aliasing the live buffer; the property speaks of strings only, so byte slices obtained earlier are not tracked.",
         "technique": "metamorphic + model-based property testing over generated histories (rapid) and bounded exhaustive state enumeration",
